@@ -98,7 +98,7 @@ pub fn mut_op_strategy() -> impl Strategy<Value = Op> {
     ]
 }
 
-pub const BIG_SIZES: [u32; 10] = [8191, 8192, 8193, 32767, 32768, 32769, 40000, 65535, 65537, 24576];
+pub const BIG_SIZES: [u32; 13] = [8191, 8192, 8193, 32767, 32768, 32769, 40000, 65535, 65537, 24576, 98304, 98305, 110000];
 
 pub fn big_op_strategy() -> impl Strategy<Value = Op> {
     prop_oneof![
@@ -106,6 +106,7 @@ pub fn big_op_strategy() -> impl Strategy<Value = Op> {
         4 => small_blk_strategy().prop_map(Op::Append),
         4 => clear_strategy(),
         3 => boundary_clear_strategy(),
+        5 => page_clear_strategy(),
         3 => Just(Op::Reopen),
         1 => idx_strategy().prop_map(Op::Get),
     ]
@@ -179,9 +180,62 @@ pub fn clear_range_for(len: u64, a: u16, n: u32) -> Option<(u64, u64)> {
     if len == 0 {
         return None;
     }
+    if n & PAGE_RELATIVE != 0 {
+        // page-relative form: start = (page + 1) * 32768 - back, count = low bits of n
+        let page = (a >> 12) as u64;
+        let back = (a & 0xfff) as u64;
+        let count = (n & !PAGE_RELATIVE) as u64;
+        let start = ((page + 1) * 32768).saturating_sub(back);
+        if start < len {
+            return Some((start, (start + 1 + count).min(2 * len + 2)));
+        }
+        // the log is shorter than that: fall back to the fractional form
+        let start = sel(a, len);
+        return Some((start, (start + 1 + count.min(40)).min(2 * len + 2)));
+    }
     let start = sel(a, len);
     let end = (start + 1 + n as u64).min(2 * len + 2);
     Some((start, end))
+}
+
+fn pclear(page: u16, back: u16, count: u32) -> Op {
+    Op::Clear { a: (page << 12) | (back & 0xfff), n: PAGE_RELATIVE | count }
+}
+
+/// Short runs of clears that interact across bitfield pages: a whole page followed by a clear that
+/// starts where it ended; a clear up to a page end followed by one that overlaps it from the left;
+/// single page-relative clears.
+pub fn page_clear_chunk_strategy() -> impl Strategy<Value = Vec<Op>> {
+    prop_oneof![
+        3 => page_clear_strategy().prop_map(|c| vec![c]),
+        2 => (0u16..3, 0u32..40).prop_map(|(p, c)| vec![pclear(p, 0, 32767), pclear(p + 1, 0, c)]),
+        2 => (0u16..3, 1u16..1500, 0u16..1500, 0u32..1500).prop_map(|(p, b, d, e)| vec![pclear(p, b, (b - 1) as u32), pclear(p, b + d, d as u32 + e)]),
+        1 => (0u16..3, 1u16..40, 0u32..40).prop_map(|(p, b, c)| vec![pclear(p, b, b as u32 + c), pclear(p, 0, 32767)]),
+        1 => Just(vec![Op::Reopen]),
+    ]
+}
+
+/// Histories on a core of 3-4 bitfield pages made mostly of page-relative clears.
+pub fn page_clear_history_strategy() -> impl Strategy<Value = Vec<Op>> {
+    (prop_oneof![Just(65537u32), Just(70000), Just(98305), Just(110000), Just(131073)], prop::collection::vec(page_clear_chunk_strategy(), 2..6)).prop_map(|(n, chunks)| {
+        let mut v = vec![Op::Big(n)];
+        for mut c in chunks {
+            v.append(&mut c);
+        }
+        v.push(Op::Reopen);
+        v
+    })
+}
+
+/// Flag in `Op::Clear::n` selecting the page-relative form (see `clear_range_for`).
+pub const PAGE_RELATIVE: u32 = 0x8000_0000;
+
+/// Clears placed relative to bitfield page ends: starting a few (or a few hundred) blocks before
+/// or exactly at the end of page 0..3, covering a few blocks, a bitfield word, a whole page or more.
+pub fn page_clear_strategy() -> impl Strategy<Value = Op> {
+    let back = prop_oneof![4 => 0u16..4, 2 => 30u16..36, 2 => 600u16..1600, 1 => 0u16..4096];
+    let count = prop_oneof![4 => 0u32..6, 2 => 30u32..34, 2 => 500u32..1800, 1 => Just(32767u32), 1 => Just(32768u32), 1 => Just(40000u32)];
+    (0u16..4, back, count).prop_map(|(page, back, count)| Op::Clear { a: (page << 12) | back, n: PAGE_RELATIVE | count })
 }
 
 /// The model state after `op` succeeded on a core in state `m`.
@@ -296,13 +350,7 @@ impl<E: Env + Clone> WSim<E> {
 
     /// Resolve a clear; None when it must be skipped (empty log).
     pub fn clear_range(&self, a: u16, n: u32) -> Option<(u64, u64)> {
-        let len = self.model.len();
-        if len == 0 {
-            return None;
-        }
-        let start = sel(a, len);
-        let end = (start + 1 + n as u64).min(2 * len + 2);
-        Some((start, end))
+        clear_range_for(self.model.len(), a, n)
     }
 
     /// Execute one op against the real core, returning the raw outcome.
